@@ -7,10 +7,11 @@
    assumed: the theorem holds for every schema table, typed or ill-typed values, any unknown
    bytes, any nesting depth.
 
-   Not stated here (see props/C04.json level_note): the speculative-length fix-up of the
-   reflection encoder (finishSpeculativeLength) is not modelled on its own; its output is part
-   of the bytes compared with [msg_encode] on every run.  The lazy-buffer exception of the
-   property text belongs to the lazy model (C17). *)
+   [C04_speculative_length_ok]: the byte-shifting length fix-up of the reflection encoder
+   (appendSpeculativeLength / finishSpeculativeLength, modelled on lists in Msg/MsgEnc.v) yields
+   varint(len body) ++ body for every body length, i.e. exactly what [msg_encode] emits for a
+   length-delimited value.  The lazy-buffer exception of the property text belongs to the lazy
+   model (C17). *)
 From Coq Require Import List NArith ZArith.
 From PB Require Import Base.PBytes Wire.WireModel.
 From PB Require Import Msg.MsgSchema Msg.MsgValue Msg.MsgEnc Msg.MsgValid Msg.MsgSizeP Msg.MsgExample.
@@ -32,6 +33,19 @@ Theorem C04_marshal_append_prefix :
     N.of_nat (length (msg_marshal_append prefix S tid v)) = N.of_nat (length prefix) + msg_size_body S tid v.
 Proof. exact msg_marshal_append_prefix. Qed.
 Print Assumptions C04_marshal_append_prefix.
+
+Theorem C04_speculative_length_ok :
+  forall (pre body : list byte),
+    N.of_nat (length body) < 2^64 ->
+    msg_finish_spec (fst (msg_append_spec pre) ++ body) (snd (msg_append_spec pre)) =
+    pre ++ enc_varint (N.of_nat (length body)) ++ body.
+Proof. exact msg_finish_spec_ok. Qed.
+Print Assumptions C04_speculative_length_ok.
+
+(* a body of 200 bytes needs a two-byte length: the body is moved up by one byte *)
+Example C04_example_speculative :
+  msg_finish_spec ([x0a] ++ [x00] ++ repeat x41 200) 1 = [x0a; xc8; x01] ++ repeat x41 200.
+Proof. vm_compute. reflexivity. Qed.
 
 (* non-vacuity: the hypothesis holds of a message using every field shape, and the two sides
    are the concrete number 149 *)
